@@ -1,4 +1,5 @@
 import BigtoolsModel.CirBytes
+import BigtoolsModel.FiltersGen
 import BigtoolsModel.OverlapsGen
 import BigtoolsModel.WigSections
 import BigtoolsModel.WfIndex
@@ -95,3 +96,44 @@ theorem C10_source_overlaps_is_the_models_ov (q qs qe b1 b1s b2 b2e : Nat) :
   gen_overlaps_eq_ov q qs qe b1 b1s b2 b2e
 
 end RT
+
+namespace BBI
+open CD
+
+/-- **The code's own range filter and clipping, bigWig.** For each of the three section types the `if` condition of
+    `get_block_values` that mentions both query bounds, and the two clipping assignments that follow it, are regenerated from
+    bigwigread.rs on every run; together they are the `keepClip` with which the query theorems are stated. -/
+theorem C10_source_filter_is_keepClip (qs qe : Nat) (v : Value) :
+    ((if Gen.wig_keep_0 v.start v.stop qs qe
+      then some { v with start := Gen.wig_clip_start_0 v.start v.stop qs qe, stop := Gen.wig_clip_end_0 v.start v.stop qs qe }
+      else none) = keepClip qs qe v) ∧
+    ((if Gen.wig_keep_1 v.start v.stop qs qe
+      then some { v with start := Gen.wig_clip_start_1 v.start v.stop qs qe, stop := Gen.wig_clip_end_1 v.start v.stop qs qe }
+      else none) = keepClip qs qe v) ∧
+    ((if Gen.wig_keep_2 v.start v.stop qs qe
+      then some { v with start := Gen.wig_clip_start_2 v.start v.stop qs qe, stop := Gen.wig_clip_end_2 v.start v.stop qs qe }
+      else none) = keepClip qs qe v) :=
+  ⟨gen_wig_filter_0 qs qe v, gen_wig_filter_1 qs qe v, gen_wig_filter_2 qs qe v⟩
+
+end BBI
+
+namespace BBI
+open CD
+
+/-- **The code's own range filter, bigBed**: the `if` condition of `get_block_entries` that mentions both query bounds,
+    regenerated from bigbedread.rs on every run, is the `bedKeep` of the query theorems. -/
+theorem C10_source_filter_is_bedKeep (qs qe : Nat) (x : Entry) : Gen.bed_keep x.s x.e qs qe = bedKeep qs qe x :=
+  gen_bed_filter qs qe x
+
+end BBI
+
+namespace BBI
+open CD
+
+/-- **The code's own zoom-record filter** (`get_zoom_block_values`, both byte orders), regenerated from bbiread.rs on every
+    run, is the `zKeep` of the zoom query theorem. -/
+theorem C10_source_zoom_filter_is_zKeep (c qs qe : Nat) (r : ZRec) :
+    Gen.zoom_keep_0 r.chrom c r.start r.stop qs qe = zKeep c qs qe r ∧ Gen.zoom_keep_1 r.chrom c r.start r.stop qs qe = zKeep c qs qe r :=
+  ⟨gen_zoom_filter_0 c qs qe r, gen_zoom_filter_1 c qs qe r⟩
+
+end BBI
